@@ -361,10 +361,10 @@ func partitionRowMapper(canonicalFields core.Fields, partitionFields core.Fields
 			}
 		}
 
-		for i := range vals {
-			vals[i] = scratch[i]
-		}
-
-		return vals
+		// The mapped row has one column per canonical field, no matter how many
+		// fields the partition reported.
+		mapped := make(core.Vals, len(scratch))
+		copy(mapped, scratch)
+		return mapped
 	}
 }
